@@ -1,7 +1,7 @@
 """Engine C: allocation, ownership and destruction (C11: M2/M3; C15: A1/A2/A3)."""
 import collections
 from .frontend import walk, children, strip, strip_parens, qtype, Ext
-from .expr import canon, access_path, is_null, var_init, root_var
+from .expr import canon, access_path, is_null, var_init, root_var, int_value as int_value_
 
 ALLOCATORS = {'malloc', 'calloc', 'realloc', 'strdup', 'strndup', 'qmemdup', 'qstrdupf'}
 FREE = 'free'
@@ -108,10 +108,61 @@ class OwnModel:
         self.owns = collections.defaultdict(set)            # record -> owned pointer fields
         self.deref_param = collections.defaultdict(set)     # func key -> params dereferenced untested
         self.releases = collections.defaultdict(set)        # func key -> {(param idx, field)}
+        self.deref_fields = collections.defaultdict(set)    # func key -> {(param idx, field)} dereferenced untested
         self._compute_frees()
         self._compute_fresh()
         self._compute_owns()
         self._compute_deref()
+        self._compute_deref_fields()
+
+    def _compute_deref_fields(self):
+        for f in self.prog.funcs.values():
+            tested = set()
+            for n in f.cfg.nodes:
+                if n.kind == 'cond' and isinstance(n.ast, dict):
+                    t = cond_null_test(n.ast)
+                    if t:
+                        tested.add(t[0])
+            pidx = {p.get('name'): i for i, p in enumerate(f.params)}
+            for x in walk(f.body):
+                b = None
+                k = x.get('kind')
+                if k == 'MemberExpr' and x.get('isArrow'):
+                    b = strip(children(x)[0])
+                elif k == 'UnaryOperator' and x.get('opcode') == '*':
+                    b = strip(children(x)[0])
+                if b is not None and b.get('kind') == 'MemberExpr' and b.get('isArrow'):
+                    r = strip(children(b)[0])
+                    if r.get('kind') == 'DeclRefExpr' and (r.get('_ref') or ('',))[0] == 'param':
+                        path = access_path(b)
+                        if path and path not in tested:
+                            i = pidx.get(r['_ref'][2])
+                            if i is not None:
+                                self.deref_fields[f.key].add((i, b.get('name')))
+        # transitive through calls passing the parameter itself on
+        changed = True
+        while changed:
+            changed = False
+            for f in self.prog.funcs.values():
+                pidx = {p.get('name'): i for i, p in enumerate(f.params)}
+                for x in walk(f.body):
+                    if x.get('kind') != 'CallExpr':
+                        continue
+                    args = children(x)[1:]
+                    for c in self.call_targets(f, x):
+                        for (j, fld) in self.deref_fields.get(c.key, ()):
+                            if j < len(args):
+                                a = strip(args[j])
+                                if a.get('kind') == 'DeclRefExpr' and (a.get('_ref') or ('',))[0] == 'param':
+                                    i = pidx.get(a['_ref'][2])
+                                    if i is not None and (i, fld) not in self.deref_fields[f.key]:
+                                        # only if this function does not test param->fld itself
+                                        tested = any(n.kind == 'cond' and isinstance(n.ast, dict) and cond_null_test(n.ast)
+                                                     and cond_null_test(n.ast)[0] == '%s->%s' % (a['_ref'][2], fld)
+                                                     for n in f.cfg.nodes)
+                                        if not tested:
+                                            self.deref_fields[f.key].add((i, fld))
+                                            changed = True
 
     def call_targets(self, f, call):
         return [c for c in self.prog.callees(f.unit, call) if not isinstance(c, Ext)]
@@ -745,6 +796,15 @@ def _a1_func(prog, rep, om, f, rid, sites):
     def held(st, path):
         return [x[2] for x in st if x[0] == 'U' and x[1] == path]
 
+    def report_null(line, site, what):
+        key = ('null', site)
+        if key in reported:
+            return
+        reported[key] = what
+        rep.violation(rid, f, line, 'null:%s@%s' % (site_name.get(site, 'alloc'), _nth_site(sites, site)),
+                      'on the path where %s() (line %s) failed, %s: NULL dereference on the allocation-failure path'
+                      % (site_name.get(site, 'alloc'), site.split(':')[0], what))
+
     def kill_path(s, p):
         return {x for x in s if not (x[1] == p or x[1].startswith(p + '->') or x[1].startswith(p + '.'))}
 
@@ -806,10 +866,22 @@ def _a1_func(prog, rep, om, f, rid, sites):
                     for site in held(s, p):
                         report(ev[2].get('_line'), site, 'is dereferenced (%s)' % canon(ev[2])[:50])
                         s = {y for y in s if y[2] != site}
+                    for y in [y for y in s if y[0] == 'N' and y[1] == p]:
+                        report_null(ev[2].get('_line'), y[2], '%s is dereferenced (%s)' % (p, canon(ev[2])[:50]))
+                        s = {z for z in s if z != y}
             elif ev[0] == 'call':
                 call = ev[1]
                 nm = prog.callee_name(call)
                 args = children(call)[1:]
+                for c in om.call_targets(f, call):
+                    for (j, fld) in om.deref_fields.get(c.key, ()):
+                        if j < len(args):
+                            ap = access_path(args[j])
+                            if ap:
+                                for y in [y for y in s if y[0] == 'N' and y[1] == '%s->%s' % (ap, fld)]:
+                                    report_null(call.get('_line'), y[2], '%s is handed to %s() which dereferences %s->%s'
+                                                % (ap, c.name, ap, fld))
+                                    s = {z for z in s if z != y}
                 idxs = set(NONNULL_ARGS.get(nm, ()))
                 for c in om.call_targets(f, call):
                     idxs |= om.deref_param.get(c.key, set())
@@ -858,7 +930,13 @@ def _a1_func(prog, rep, om, f, rid, sites):
         sites = set(held(st, t[0]))
         if not sites:
             return st
-        return frozenset(x for x in st if x[2] not in sites)
+        out = set(x for x in st if not (x[0] == 'U' and x[2] in sites))
+        if (lab == 'T') == t[1]:
+            # the allocation failed on this path: the pointer is NULL here
+            for x in st:
+                if x[0] == 'U' and x[2] in sites:
+                    out.add(('N', x[1], x[2]))
+        return frozenset(out)
 
     # map path -> field for the must-non-NULL check
     path_field = {}
@@ -873,7 +951,7 @@ def _a1_func(prog, rep, om, f, rid, sites):
 
     propagate(f, frozenset(), transfer, branch)
     for c in sites:
-        rep.oblige(rid, _site(c) not in reported,
+        rep.oblige(rid, _site(c) not in reported and ('null', _site(c)) not in reported,
                    {'function': f.name, 'site': '%s:%s %s()' % (f.relfile, c.get('_line'), site_name[_site(c)])})
 
 
@@ -1094,52 +1172,111 @@ def counter_fields(prog, sm):
 
 
 def rule_a2(prog, rep, om, units, sm, rid='A2'):
-    rep.rule(rid, 'no may-fail allocation is reachable after a counter increment inside one operation '
-                  '(allocate everything, then commit)')
+    rep.rule(rid, 'within one operation no may-fail allocation is reachable after the container was already mutated '
+                  '(counter written directly or through a callee): allocate everything, then commit')
     counters = {('qtreetbl_s', 'num'), ('qhashtbl_s', 'num'), ('qlisttbl_s', 'num'), ('qlist_s', 'num'),
                 ('qlist_s', 'datasum'), ('qvector_s', 'num'), ('qhasharr_data_s', 'num'),
                 ('qhasharr_data_s', 'usedslots')}
     rep.notes['counter_fields'] = sorted('%s.%s' % c for c in counters)
+
+    def counter_target(x):
+        k = x.get('kind')
+        tgt = None
+        if k == 'UnaryOperator' and x.get('opcode') in ('++', '--'):
+            tgt = strip(children(x)[0])
+        elif k == 'CompoundAssignOperator':
+            tgt = strip(children(x)[0])
+        elif k == 'BinaryOperator' and x.get('opcode') == '=':
+            if int_value_(children(x)[1]) == 0:
+                return None          # initialisation / clear: not the commit of an element
+            tgt = strip(children(x)[0])
+        if tgt is not None and tgt.get('kind') == 'MemberExpr' and tgt.get('_field') \
+                and (tgt['_field'][0], tgt['_field'][1]) in counters:
+            return tgt
+        return None
+
+    # summaries over the whole program: mutates (writes a counter), may_alloc (contains a may-fail allocation)
+    mutates, may_alloc = set(), set()
+    for f in prog.funcs.values():
+        if any(counter_target(x) is not None for x in walk(f.body)):
+            mutates.add(f.key)
+        if any(x.get('kind') == 'CallExpr' and prog.callee_name(x) in ALLOCATORS for x in walk(f.body)):
+            may_alloc.add(f.key)
+    changed = True
+    while changed:
+        changed = False
+        for f in prog.funcs.values():
+            for x in walk(f.body):
+                if x.get('kind') != 'CallExpr':
+                    continue
+                for c in om.call_targets(f, x):
+                    if c.key in mutates and f.key not in mutates:
+                        mutates.add(f.key)
+                        changed = True
+                    if c.key in may_alloc and f.key not in may_alloc:
+                        may_alloc.add(f.key)
+                        changed = True
+
+    def node_allocs(f, m):
+        out = []
+        if isinstance(m.ast, dict) and m.kind != 'macro':
+            for c in walk(m.ast):
+                if c.get('kind') == 'CallExpr':
+                    if prog.callee_name(c) in ALLOCATORS:
+                        out.append(c)
+                    elif any(t.key in may_alloc and t.key not in mutates_only_free.get(t.key, ()) for t in om.call_targets(f, c)):
+                        out.append(c)
+        return out
+    mutates_only_free = {}
+
     for rel in units:
         for f in sorted(prog.funcs_in(rel), key=lambda x: x.line or 0):
-            incs = []
+            muts = []
             for n in f.cfg.nodes:
                 if n.id not in f.cfg.reachable or not isinstance(n.ast, dict) or n.kind == 'macro':
                     continue
                 for x in walk(n.ast):
-                    k = x.get('kind')
-                    tgt = None
-                    if k == 'UnaryOperator' and x.get('opcode') == '++':
-                        tgt = strip(children(x)[0])
-                    elif k == 'CompoundAssignOperator' and x.get('opcode') == '+=':
-                        tgt = strip(children(x)[0])
-                    if tgt is not None and tgt.get('kind') == 'MemberExpr' and tgt.get('_field') \
-                            and (tgt['_field'][0], tgt['_field'][1]) in counters:
-                        incs.append((n, tgt))
-            for (n, tgt) in incs:
+                    t = counter_target(x)
+                    if t is not None:
+                        # the constructor / clear writing 0 is not a commit of an element
+                        muts.append((n, x, 'writes %s' % canon(t)))
+                    elif x.get('kind') == 'CallExpr':
+                        for c in om.call_targets(f, x):
+                            if c.key in mutates and c.key != f.key:
+                                muts.append((n, x, 'calls %s() which updates the container' % c.name))
+                                break
+            loopheads = {h.id for (h, _s) in f.cfg.loops}
+            for (n, x, what) in muts:
                 rep.instance(rid)
-                # forward reachability from n (excluding n itself unless in a loop)
+                # forward reachability within the same loop iteration (do not cross loop heads)
                 seen = set()
                 work = [s for (s, _l) in n.succs]
                 bad = None
+                # allocation later in the same node (evaluation order): `x->num++; return new_obj()` style is two nodes,
+                # but `f(a), g(b)` in one expression is not split: check calls after x in this node
+                after = False
+                for c in walk(n.ast):
+                    if c is x:
+                        after = True
+                        continue
+                    if after and c.get('kind') == 'CallExpr' and c is not x and prog.callee_name(c) in ALLOCATORS:
+                        bad = (n, c)
                 while work and bad is None:
                     m = work.pop()
-                    if m.id in seen:
+                    if m.id in seen or m.id in loopheads:
                         continue
                     seen.add(m.id)
-                    if isinstance(m.ast, dict) and m.kind != 'macro':
-                        for c in walk(m.ast):
-                            if c.get('kind') == 'CallExpr' and om.is_alloc_call(f, c):
-                                bad = (m, c)
-                                break
+                    al = node_allocs(f, m)
+                    if al:
+                        bad = (m, al[0])
+                        break
                     for (s, _l) in m.succs:
                         work.append(s)
-                # the same node: increment then allocation in evaluation order (return new_obj() after ++)
                 ok = bad is None
-                rep.oblige(rid, ok, {'function': f.name, 'counter': canon(tgt), 'line': n.line})
+                rep.oblige(rid, ok, {'function': f.name, 'mutation': what, 'line': x.get('_line')})
                 if not ok:
                     m, c = bad
-                    rep.violation(rid, f, n.line, 'inc:%s' % canon(tgt),
-                                  '%s is incremented at line %s before the may-fail allocation %s() at line %s: '
-                                  'if that allocation fails the count stays wrong'
-                                  % (canon(tgt), n.line, prog.callee_name(c) or canon(children(c)[0]), c.get('_line')))
+                    rep.violation(rid, f, x.get('_line'), 'mut:%s' % what.split()[1],
+                                  '%s %s at line %s and a may-fail allocation (%s at line %s) is still ahead in the same operation: '
+                                  'if it fails the call reports failure with the container already changed'
+                                  % (f.name, what, x.get('_line'), canon(children(c)[0])[:30] + '()', c.get('_line')))
